@@ -15,14 +15,21 @@
 #include "xml.h"
 
 static const std::string& scratchFile() {
-    static const std::string f = [] {
-        char tmpl[] = "/tmp/vh_c20_XXXXXX";
-        const int fd = mkstemp(tmpl);
-        if (fd >= 0)
-            close(fd);
-        return std::string(tmpl);
-    }();
-    return f;
+    struct ScratchFile {
+        std::string f;
+        ScratchFile() {
+            char tmpl[] = "/tmp/vh_c20_XXXXXX";
+            const int fd = mkstemp(tmpl);
+            if (fd >= 0)
+                close(fd);
+            f = tmpl;
+        }
+        ~ScratchFile() {
+            std::remove(f.c_str());
+        }
+    };
+    static const ScratchFile s;
+    return s.f;
 }
 
 // loadskip hash bytes : what AnalyzerInformation::analyzeFile decides for a cache file with these bytes:
